@@ -234,13 +234,18 @@ pub fn extract_security_strategies(spec: &OpenAPI) -> Vec<AuthStrategy> {
                     }))
                 }
             }
-            SecurityScheme::HTTP { .. } => {
+            SecurityScheme::HTTP { scheme: http_scheme, .. } => {
+                let location = if http_scheme.eq_ignore_ascii_case("basic") {
+                    AuthLocation::Basic
+                } else {
+                    AuthLocation::Bearer
+                };
                 strats.push(AuthStrategy::Token(TokenAuth {
                     name: scheme_name.to_string(),
                     fields: vec![AuthParam {
                         name: scheme_name.to_string(),
                         // env_var: scheme_name.to_case(Case::ScreamingSnake),
-                        location: AuthLocation::Bearer,
+                        location,
                     }],
                 }));
             }
